@@ -5,6 +5,7 @@
   of a transaction evaluates on committed ⊕ staged(1..i−1) (failed statements have no effect in both).
 -/
 import Nervus.Proofs.Txn
+import Nervus.Proofs.TxnLabels
 namespace Nervus.Props.C24
 open Nervus.Txn Nervus.Spec.TxnSem
 
@@ -74,5 +75,63 @@ theorem counterexample_delete_then_merge :
 theorem C24_full_false : ¬ C24_full := fun h => by
   have := h State.init witness
   exact absurd this (by decide)
+
+
+/-! ### the name-level fragment that DOES hold: labels added / removed by name (Nervus.Model.TxnLabels)
+
+  Label names are interned write-through (published at once) and every `ndb_txn_query` statement gets a fresh
+  snapshot, so a later statement can resolve a label name that an earlier statement of the same transaction
+  introduced; additions and removals for the same node compose in the transaction's pending lists. -/
+
+section Labels
+open Nervus.TxnLabels
+
+/-- what the source does today: `execute_write_in_txn` calls `db.snapshot()` for every statement (regenerated) -/
+theorem snapshot_taken_per_statement : Generated.capiTxnSnapshotPerStatement = true := snapshot_per_statement
+
+/-- **labels_read_your_writes**: for every committed graph `g`, every label table that contains the labels in use,
+    every committed node `n` (with an id of its own) and every transaction of the fragment
+    (`MATCH (n:Base) SET n:X`, `… REMOVE n:X`, `MATCH (n) REMOVE n:X`, `CREATE (:X …)`, unrelated statements; base
+    labels 0/1 are only matched on, labels ≥ 2 only written) in which no label is re-added after the transaction
+    removed it, the labels `n` has after `begin; statements; commit` on the code are exactly the labels obtained by
+    applying the statements one after the other — each statement observes the label writes of the earlier ones,
+    including names that were new to the database. -/
+theorem labels_read_your_writes (σ : TxnLabels.State) (hopen : σ.staged = none) (n : TxnLabels.Node)
+    (hn : n ∈ σ.committed) (huniq : ∀ m ∈ σ.committed, m.id = n.id → m.labels = n.labels)
+    (hlt : ∀ m ∈ σ.committed, m.id < σ.allocated) (hknown : ∀ y ∈ n.labels, y ∈ σ.known)
+    (stmts : List TxnLabels.Stmt) (hwf : ∀ s ∈ stmts, s.wellFormed = true) (hre : reAdds [] stmts = false) :
+    ∃ ps, (TxnLabels.run true σ (txnOps stmts)).committed = applyCommit σ.committed ps ∧
+      ∀ l, l ∈ finalLabels n ps ↔ l ∈ specNodeLabels n.labels stmts :=
+  ⟨_, run_txn_committed σ hopen stmts,
+    node_labels_agree σ.committed n σ.allocated hn huniq hlt stmts [] σ.known [] n.labels hwf
+      (by simp [createdNodes]) (by simp [addsFor]) (by simp [remsFor]) (by simp [remsFor])
+      (by intro y hy; rcases hy with hy | hy; exact hknown y hy; simp [addsFor] at hy)
+      (by intro l; simp [addsFor, remsFor]) hre⟩
+
+/-- non-vacuity, and the shape the seeded fault needs: an unrelated first statement, then a label that is new to
+    the database is added and removed again by name -/
+def lblState : TxnLabels.State := ⟨[⟨0, [0], 1, false⟩, ⟨1, [1], 2, false⟩], [], 2, [0, 1], none, none⟩
+def lblTxn : List TxnLabels.Stmt := [.seen 0, .addl 0 2, .addl 1 3, .reml 0 2, .crx 4 7, .remall 4]
+
+example : reAdds [] lblTxn = false ∧ (∀ s ∈ lblTxn, s.wellFormed = true) := by decide
+example : ((TxnLabels.run true lblState (txnOps lblTxn)).committed.map (·.labels)) = [[0], [1, 3], []] := by decide
+example : specNodeLabels [0] lblTxn = [0] ∧ specNodeLabels [1] lblTxn = [1, 3] := by decide
+
+/-- **one snapshot per transaction breaks the fragment** (the shape of seeded fault C24-seed1): with the label table
+    of the transaction's first snapshot, `REMOVE n:X` cannot resolve a name interned later and stages nothing —
+    the label survives the commit. -/
+theorem per_transaction_snapshot_breaks_labels :
+    ((TxnLabels.run false lblState (txnOps [.seen 0, .addl 0 2, .reml 0 2])).committed.map (·.labels)) = [[0, 2], [1]] ∧
+      ((TxnLabels.run true lblState (txnOps [.seen 0, .addl 0 2, .reml 0 2])).committed.map (·.labels)) = [[0], [1]] := by
+  decide
+
+/-- **counterexample (known finding C24-label-readd-lost-at-commit)**: commit applies every label addition and then
+    every label removal, so `SET n:X`, `REMOVE n:X`, `SET n:X` in one transaction ends without the label. -/
+theorem counterexample_label_readd :
+    ((TxnLabels.run true lblState (txnOps [.addl 0 2, .reml 0 2, .addl 0 2])).committed.map (·.labels)) = [[0], [1]] ∧
+      specNodeLabels [0] [.addl 0 2, .reml 0 2, .addl 0 2] = [0, 2] ∧
+      reAdds [] [.addl 0 2, .reml 0 2, .addl 0 2] = true := by decide
+
+end Labels
 
 end Nervus.Props.C24
